@@ -39,6 +39,7 @@ type c04LargeCase struct {
 	Tamper string `json:"tamper"` // body (one byte at Off) | body-append | body-trunc
 	Off    int    `json:"off,omitempty"`
 	TFr    string `json:"tfr,omitempty"` // framing of the tampered upload ("=": same)
+	CT     int    `json:"ct,omitempty"`  // 1: encrypted upload; the untampered half is then run but not judged
 }
 
 const c04MiB = 1 << 20
@@ -72,7 +73,8 @@ func c04LargeInterp(t *testing.T, c c04LargeCase) (v kit.Verdict) {
 			ng := newEngine(Config{Config: service.Config{Name: "c04-large"}, Host: "localhost", Port: 8080,
 				MaxConns: 10000, MaxBytes: 1 << 20, Timeout: 3000})
 			fr := featuredRoutes{routes: []Route{{Method: c.Method, Path: route, Handler: h}}}
-			WithMaxBytes(int64(c.Size) + 4096)(&fr)
+			// room for the transmitted form (base64 of the ciphertext under content type 1)
+			WithMaxBytes(2*int64(c.Size) + 4096)(&fr)
 			sc := SignatureConfig{Strict: true, Expire: time.Hour}
 			for _, fp := range []string{c04FpA, c04FpB} {
 				sc.PrivateKeys = append(sc.PrivateKeys, PrivateKeyConfig{Fingerprint: fp, KeyFile: c04KeyMaterial.files[fp]})
@@ -96,7 +98,7 @@ func c04LargeInterp(t *testing.T, c c04LargeCase) (v kit.Verdict) {
 			return rec.Code, seen
 		}
 		req := c04SigReq{Method: c.Method, Path: route, Query: c.Query, Body: c04LargePattern(c.Seed), Big: c.Size,
-			Fr: c.Fr, KeyLen: 32, KeySd: c.Seed, Fp: c.Fp, Ver: true}
+			Fr: c.Fr, KeyLen: 32, KeySd: c.Seed, Fp: c.Fp, Ver: true, CType: c.CT}
 		ts := time.Now().Unix()
 		switch {
 		case c.Size < c04MiB:
@@ -117,7 +119,12 @@ func c04LargeInterp(t *testing.T, c c04LargeCase) (v kit.Verdict) {
 		code, s := send(wire)
 		what := fmt.Sprintf("untampered %d-byte upload (%s, framing %q)", c.Size, c.Method, c.Fr)
 		// both halves are always executed; the first failing one is reported
-		if msg := c04SigJudge(what, c04Accept, nil, code, s); msg != "" {
+		if c.CT == 1 {
+			// the decrypting handler behind the gate has a 1 MiB limit of its own and leaves
+			// uploads of unknown length alone: the statement is silent (no panic, no hang)
+			classes[fmt.Sprintf("unspec:encrypted-large-upload(ran=%d,status=%d)", s.ran, code)] = true
+			validRan = s.ran == 1
+		} else if msg := c04SigJudge(what, c04Accept, nil, code, s); msg != "" {
 			fail = msg
 		} else if string(s.body) != string(plain) {
 			fail = fmt.Sprintf("%s: the handler read %d bytes, sha256 %x; original has %d bytes, sha256 %x", what, len(s.body), sha256.Sum256(s.body), len(plain), sha256.Sum256(plain))
@@ -189,6 +196,9 @@ func c04LargeGen(rt *rapid.T) c04LargeCase {
 		}
 	}
 	c.TFr = rapid.SampledFrom([]string{"=", "=", "", "chunked"}).Draw(rt, "tframing")
+	if rapid.IntRange(0, 7).Draw(rt, "encrypted") == 0 {
+		c.CT = 1
+	}
 	return c
 }
 
